@@ -1865,8 +1865,8 @@ func reflectGetStructFieldByNameOrJsonTag(structValue reflect.Value, key string)
 				// Queue embedded struct fields for processing with next level,
 				// but only if we haven't seen a match yet at this level and only
 				// if the embedded types haven't already been queued.
-				if ok || nestedTyp == nil || nestedTyp.Kind() != reflect.Struct {
-					continue
+				if ok || nestedTyp == nil || nestedTyp.Kind() != reflect.Struct || !fieldValue.IsValid() {
+					continue // no match yet, not a struct, or a nil embedded pointer
 				}
 
 				// here we are sure that the nested type is indeed a Struct
